@@ -16,6 +16,14 @@
 #include <utility>
 #include <vector>
 
+#if defined(MC_FLAVOUR_SAN)
+// ASan in recover mode keeps a table of 25 reporting PCs and calls Die() when a 26th distinct
+// PC reports (suppress_equal_pcs).  Every extents type has its own copy of the reporting code,
+// so an unrepaired constructor exceeds that at once; switch the table off (the environment
+// options of check.py are merged over these defaults).
+extern "C" __attribute__((used, visibility("default"))) char const* __asan_default_options() { return "suppress_equal_pcs=0:print_legend=0"; } // one TU per binary
+#endif
+
 namespace c19 {
 
 using ll  = long long;
@@ -272,8 +280,10 @@ struct Ctx {
     std::uint64_t evals{0};
     std::uint64_t nontrivial{0};
     std::uint64_t skipped{0};
-    std::string subject; // call site running now
+    std::string subject; // call site running now (the constructor / factory of the object under test)
+    std::string base;    // type under test; observer subjects are base + "::" + observer
     std::string cls;
+    std::string ocls;    // class used for observer subjects (empty: cls)
     std::string kase;
 
     explicit Ctx(mc::Reporter& rep) : r(rep) {}
@@ -294,6 +304,30 @@ struct Ctx {
             return false;
         }
         return true;
+    }
+    /// comparison of an observer of the object: subject = base::observer
+    template <typename G, typename W>
+    bool eq_o(char const* observer, G const& got, W const& want)
+    {
+        ++evals;
+        if (!(got == want)) {
+            r.violation("C19", cat(base, "::", observer), ocls.empty() ? cls : ocls, kase, cat("tetl=", got, " reference=", want));
+            return false;
+        }
+        return true;
+    }
+    void fail_o(char const* observer, std::string const& detail) { r.violation("C19", cat(base, "::", observer), ocls.empty() ? cls : ocls, kase, detail); }
+    /// trap while the observer `phase` ran ("construction" = the call site itself)
+    void trap_o(mc::Trap t, char const* phase)
+    {
+        std::string const keep = subject, keepc = cls;
+        if (std::string(phase) != "construction") {
+            subject = cat(base, "::", phase);
+            if (!ocls.empty()) { cls = ocls; }
+        }
+        trap(t);
+        subject = keep;
+        cls     = keepc;
     }
     void fail(std::string const& detail)
     {
